@@ -1,0 +1,13 @@
+//go:build verif
+
+// Contracts for the govc verifier (see /verif/DESIGN.md). Comment-only file.
+package upgrades
+
+//@ # a block is a grace block iff it lies in one of the configured grace periods (no punishment for absence, C18)
+//@ func (*Grace).IsGraceBlock
+//@   serves C18
+//@   requires g != nil ==> forall i int :: 0 <= i && i < len(g.gracePeriods) ==> g.gracePeriods[i] != nil
+//@   ensures grace: result <==> (g != nil && exists i int :: 0 <= i && i < len(g.gracePeriods) && g.gracePeriods[i].from <= block && block <= g.gracePeriods[i].to)
+//@   modifies nothing
+//@   loop 0 invariant idx: -1 <= rangeindex && (rangeindex < len(g.gracePeriods) || (rangeindex == -1 && len(g.gracePeriods) == 0))
+//@   loop 0 invariant none: forall i int :: 0 <= i && i <= rangeindex ==> !(g.gracePeriods[i].from <= block && block <= g.gracePeriods[i].to)
